@@ -14,6 +14,7 @@ INVARIANT C16_OffNeverEscapes
 INVARIANT C03_WellFormed
 INVARIANT C04_StackIsChainOrder
 INVARIANT C29_Repeatable
+INVARIANT C32_LookupsSyntactic
 """
 
 
